@@ -11,7 +11,7 @@ RULE = ("all multisets of 1-3 member sequences (members = every well-formed set 
         "channels (x 2 pitches thorough), empty members, members with 0-2 signature events, trailing-rest variants) x ALL "
         "permutations x {merged into an empty receiver, merged into the first member}; compared with the union model; "
         "non-trivial = two members share a (channel, pitch) and overlap or abut")
-SCALE = ('16-120 notes in 2-3 members; a 1-2 note phrase touching / overlapping / preceding the i-th note for EVERY i of a 33/65/129-note piece; 4, 5 and 6 members all sounding one (channel, pitch) at once (nested, staircase, identical; every permutation up to 5 members, all rotations and reversals for 6)')
+SCALE = ('16-120 notes in 2-3 members; a 1-2 note phrase touching / overlapping / preceding the i-th note for EVERY i of a 33/65/129-note piece; 4, 5 and 6 members all sounding one (channel, pitch) at once (nested, staircase, identical; every permutation up to 5 members, all rotations and reversals for 6); one sequence object twice in a family (receiver among its operands, member twice, member beside its copy); operands handed over as tuple / generator / iterator / map / reversed every 6th case; the A-B-A signature pattern on two channels; numpy integer ticks every 5th case')
 ASSUMPTIONS = ["velocity of fused notes is not demanded", "members never carry two different signatures of one kind on one tick"]
 REQUIRED_FLAGS = ["operands_not_a_list", "after_history", "overlap_fused", "nested", "abutting_kept_separate", "identical_notes", "empty_member",
                   "signature_repeat_dropped", "member_restates_own_signature_after_foreign_change", "different_durations", "permutation_checked", "receiver_nonempty", "five_or_more_members",
